@@ -247,12 +247,14 @@ def from_labels(labels):
     return hist
 
 
-def weave_sync(rng, hist):
+def weave_sync(rng, hist, density=1.0):
     """Beyond C19: interleave a request history with cellsync runs of the cells
     it touches, assignments of application patterns, and give some requests a
     rank / rank adjustment / max utilisation.  The reservation requests and
     their order are unchanged."""
     cells = sorted({ident[1] for _ev, ident, _r in hist if ident[1]}) or ['c1']
+    if rng.random() >= density:     # thorough tier: only a final Sync per cell
+        return list(hist) + [('Sync', ('', c), None) for c in cells]
     patterns = ['proid.a*', 'proid.b-1#*', 'other.*']
     out, seen = [], []
     for ev, ident, r in hist:
